@@ -20,7 +20,7 @@ func init() {
 			"(6b) inside a child namespace the root-only sys APIs (restrictedSysAPIs) and an own or inherited API lock are refused before request handling; " +
 			"(7b) Store.ACL fetches each named policy in the namespace its map key resolves to; (7c) switchedGetPolicy returns a cached or stored policy object only across the no-expiration / not-yet-expired edge; (7d) Store.cacheKey appends the policy name verbatim to the namespace UUID and never passes it through a cleaning join (path.Join/Clean), so a name cannot address another namespace's cache entry; " +
 			"(1g) in hierarchy mode a foreign-namespace group policy applies only across policyNS.HasParent(tokenNS); (3b) LoginPath / RootPath answer true only on the exact-match, prefix-entry or wildcard arm; " +
-			"(9) sys/seal and sys/step-down act only after a populated and fetched token, live entity, successful audit and an allowing policy check built with RootPrivsRequired = true.",
+			"(9) sys/seal and sys/step-down act only after a populated and fetched token, live entity, successful audit and an allowing policy check built with RootPrivsRequired = true. (7e) before a templated policy is expanded with identity values, both independent opt-in flags (slashes, wildcards) are consulted on every path, so that \"/\", \"*\" and \"+\" are refused as substituted values unless the policy allows them.",
 		NotDecided: "that the ACL's decision is the right one (C03's clauses); absence of storage effects of a refused request as an observed effect; interleavings of policy/token mutation with requests; what each HTTP route outside Core.HandleRequest does.",
 		Run:        runC02,
 	})
@@ -420,6 +420,7 @@ func runC02(c *eng.Ctx, thorough bool) {
 	aclOwnership(c, "C02.8")
 
 	runC02Gaps2(c)
+	runC02Gaps3(c, "C02.7")
 }
 
 func mustStatic(c *eng.Ctx, names ...string) eng.CalleeMatcher {
